@@ -372,13 +372,29 @@ def arg_of(ex, p, callee, argname):
     name ends with `callee` (call-event postconditions: what exactly was handed to the callee)"""
     cs = z3.simplify(callee.t).as_string()
     an = z3.simplify(argname.t).as_string()
-    for qn, env in reversed(p.events):
-        if qn.endswith(cs):
-            return env[an]
+    for ev in reversed(p.events):
+        if ev[0].endswith(cs):
+            return ev[1][an]
     raise KeyError("no call of %s on this path" % cs)
+
+
+@REG.specfunc()
+def result_of(ex, p, callee):
+    """what the LAST call (on this path) of the contracted function `callee` returned"""
+    cs = z3.simplify(callee.t).as_string()
+    for ev in reversed(p.events):
+        if ev[0].endswith(cs) and len(ev) > 2:
+            return ev[2]
+    raise KeyError("no call of %s on this path" % cs)
+
+
+@REG.specfunc()
+def n_calls(ex, p, callee):
+    cs = z3.simplify(callee.t).as_string()
+    return VInt(len([1 for ev in p.events if ev[0].endswith(cs)]))
 
 
 @REG.specfunc()
 def was_called(ex, p, callee):
     cs = z3.simplify(callee.t).as_string()
-    return VBool(any(qn.endswith(cs) for qn, env in p.events))
+    return VBool(any(ev[0].endswith(cs) for ev in p.events))
